@@ -97,6 +97,7 @@ def rule_position_helpers(facts, rid):
         for s in find(f["body"], lambda n: n.get("k") == "Let" and n.get("init") is not None):
             for b in find(s["pat"], lambda n: n.get("k") == "Bind"):
                 inits[b["id"]] = s["init"]
+        fallback = None
         for m in find(f["body"], lambda n: n.get("k") == "Match" and n.get("src") == "Normal" and "jaq_json::Val" in n["scrut_ty"]):
             cs = candidates(m["arms"], value)
             if not cs or cs[-1][1] != "sure":
@@ -136,7 +137,15 @@ def rule_position_helpers(facts, rid):
                         # a local bound to a helper, to a tuple of helpers or to a closure shared by several arms
                         scan(inits[i], depth + 1)
             scan(arm["body"])
-            return helpers, arm["sp"]
+            if not helpers and fallback is None:
+                # an arm for this value that positions nothing (e.g. the expansion of a `matches!` test in front of the real
+                # dispatch): remember it, but prefer a later match whose arm for this value does position
+                fallback = (helpers, arm["sp"])
+                continue
+            if helpers:
+                return helpers, arm["sp"]
+        if fallback is not None:
+            return fallback
         t6.violate(f"{what}/arm", f"{what}: no arm decides {value}")
         return None
 
